@@ -517,7 +517,7 @@ class C03:
         if sh["index"] == 0:
             for t, w in directed:
                 self.run_case({"kind": "pair", "tree": t, "where": w, "cont": 0}, rec)
-        for i in range(sh["pairs"]):
+        for i in harness.budgeted(range(sh["pairs"]), rec):
             g.risk = rng.choice([None] * 8 + RISKS)
             t = g.chain()
             where = g.placement()
@@ -527,7 +527,7 @@ class C03:
             seeds.append(place("top", render(t, False), render(t, True))[0])
             rec.begin(case)
             self.run_case(case, rec)
-        for i, s in enumerate(self.fuzz_sources(rng, sh["fuzz"], seeds)):
+        for i, s in enumerate(harness.budgeted(self.fuzz_sources(rng, sh["fuzz"], seeds), rec)):
             case = {"kind": "fuzz", "src": s}
             if i < 2:
                 rec.sample(case, "fuzz")
